@@ -193,7 +193,7 @@ def bit_function_equal(t, exp, max_bits=10):
     return True
 
 
-def int_witness(t, want, inputs, extra=()):
+def int_witness(t, want, inputs, extra=(), limit=200):
     """a concrete integer input at which the two (integer / bit) terms, rebuilt by the normalising constructors, fold to different constants:
     ({input: value}, got, want) or None.  Terms are values derived by the analysis; only constant folding of the term constructors is used."""
     cands = []
@@ -205,7 +205,7 @@ def int_witness(t, want, inputs, extra=()):
     n = 0
     for combo in (zip(*cands) if len(inputs) == 1 else itertools.product(*cands)):
         n += 1
-        if n > 200:
+        if n > limit:
             break
         mp = {x: tm.const(x.w, v) for x, v in zip(inputs, combo)}
         a, b = tm.substitute(t, mp), tm.substitute(want, mp)
